@@ -355,3 +355,27 @@ Example word_rewrite_undefined_example :
     rw_from_c rw = Some f /\ rw_to_c rw = Some t /\
     eval (env1 ex_var None) f = Some TMalformed /\ eval (env1 ex_var None) t = Some TFalse.
 Proof. try unfold counterexample. apply rewrite_values_sound. vm_compute. reflexivity. Qed.
+
+(* ---------- simplifyMatch, with mayMatchNumber's promise stated on single words ---------- *)
+From PV Require Import Proofs.CondSimpWords.
+
+Theorem match_rewrite_equivalent_words cx v mods fe neg rw e :
+  In rw (simplify_match cx v mods fe neg) ->
+  exists f t pat,
+    rw_from_c rw = Some f /\ rw_to_c rw = Some t /\ last mods [] = 77 :: pat /\
+    (e v <> None ->   (* isDefined said so: simplifyMatch fires only then *)
+     forall d s, eval_expr e v (map classify_mod (removelast mods)) = Some (d, s) ->
+       clean s ->      (* the value has no white space other than blank, tab, newline *)
+       (* mayMatchNumber(pat) = false: no word that matches pat is a number *)
+       (cx_mmn cx pat <> MmnYes ->
+        forall w, w <> [] -> wordlike w -> str_match w pat = true -> try_parse_number w = None) ->
+       equivalent e f t).
+Proof.
+  intros Hin. destruct (match_rewrite_equivalent cx v mods fe neg rw e Hin) as (f & t & pat & Hf & Ht & Hl & H).
+  exists f, t, pat. split; [exact Hf|]. split; [exact Ht|]. split; [exact Hl|].
+  intros Hv d s Hev Hcl Hnum.
+  pose proof (eval_expr_snoc e v _ (ModM pat) d s Hev) as Hlast. cbn [apply_mod] in Hlast.
+  apply (H Hv d _ Hlast).
+  - apply (match_result_head (fun w => str_match w pat) s Hcl).
+  - intros Hm. apply (match_result_bare pat s Hcl (Hnum Hm)).
+Qed.
